@@ -65,7 +65,7 @@ FLOORS = {
         "pairs_compared": 1800,
         "pairs_straddling_power_of_ten": 1400,
         "pairs_other_hashseed": 500,
-        "pairs_same_history_other_interpreter_start": 100,
+        "pairs_same_history_other_interpreter_start": 60,
         "pairs_with_foreign_objects": 700,
         "pairs_other_build_order": 300,
         "sig_compared": 1800,
